@@ -121,6 +121,8 @@ class SymExec:
         self.notes = []
         self.key_ty = {}
         self.lazy = {}     # key -> value it got when first read without ever being assigned
+        self._loop_heads = {}
+        self._refined = []
         self.flagfacts = {}  # (bool key, value) -> tuple of fact sets, one per assignment of that literal (alternatives)
         self.pc = []       # path condition: (if-node, branch, cond value) of the enclosing conditionals
 
@@ -703,6 +705,7 @@ class SymExec:
             lv = self.lvalue(cnode)
             if lv[0] == "key":
                 self.st[lv[1]] = self.TRUE if truth else self.FALSE
+                self._refined.append((lv[1], truth))
                 if (lv[1], truth) in self.flagfacts:
                     self.st[FACTS] = self.st.get(FACTS, frozenset()) | {(Poly.atom("flag:%s" % lv[1]), truth)}
             return
@@ -763,7 +766,10 @@ class SymExec:
         self.st = dict(base)
         self.pc.append((e, "then", cond))
         self.add_fact(cond, True)
+        n_ref = len(self._refined)
         self.refine(e["cond"], cond, True)
+        refined_then = self._refined[n_ref:]
+        del self._refined[n_ref:]
         v1 = self.eval(e["then"])
         self.pc.pop()
         s1 = self.st
@@ -776,6 +782,14 @@ class SymExec:
         s2 = self.st
         self.cond_depth -= 1
         self.st = self.join_states([s1, s2])
+        if s1 is not None and s2 is not None:
+            # a boolean that was only *refined* by this test (true in one branch, false in the other, never assigned)
+            # has its original symbolic value again after the join
+            for k_, t_ in refined_then:
+                want1 = self.TRUE if t_ else self.FALSE
+                want2 = self.FALSE if t_ else self.TRUE
+                if s1.get(k_) == want1 and s2.get(k_) == want2 and k_ in base:
+                    self.st[k_] = base[k_]
         if s1 is not None and s2 is not None:
             created = {}
             for k, v in self.st.items():
@@ -977,7 +991,7 @@ class SymExec:
                 self.st[k] = v
             fixed = (self.h.head_override(self, node, roots) if self.h else None) or set()
             head = dict(self.st)
-            self._last_head = head
+            self._loop_heads[id(node)] = head
             body_eval()
             latch, breaks = self._split_exits(n_ex, loop_id)
             L = self.join_states(latch)
@@ -1098,7 +1112,8 @@ class SymExec:
         latch, breaks = self.run_loop_body(e, body, lid)
         # exit happens at a head visit: the generalised head is covered by join(pre, latch)
         outs = list(latch) + list(breaks)
-        self.st = self.join_states(outs + [self._last_head]) if hasattr(self, "_last_head") and self._last_head is not None else self.join_states(outs)
+        hd = self._loop_heads.get(id(e))
+        self.st = self.join_states(outs + [hd]) if hd is not None else self.join_states(outs)
         return Poly.atom("unit")
 
     def head_state_after_havoc(self, base, node):
@@ -1293,7 +1308,7 @@ class SymExec:
             v = self.eval(e["args"][0])
             if isinstance(v, Buf):
                 v = self._p(v)
-            self.log("push", lv=lv, value=v, node=e, recv=recv)
+            self.log("push", lv=lv, value=v, node=e, recv=recv, pc=list(self.pc))
             if lv[0] == "key":
                 cur = self.st.get(lv[1])
                 if isinstance(cur, Coll):
